@@ -32,7 +32,7 @@ DET = {
  'C12-2': (False, 'C12', '', 'quick', 'interior_point (sweep line) is not under contract'),
  'C12-3': (False, 'C12', '', 'quick', 'sweep::proc is not under contract'),
  'C01-1': (True, 'C01', 'Verus obligation C01.V.insert_boundary_point (postcondition: the node toggles between boundary and interior)', 'quick', 'missed by the first run; Verus unit c01_boundary (node map and Label abstract) added afterwards; no K twin: VIOLATION ... no-failing-input-found'),
- 'C01-2': (False, 'C01', '', 'quick', 'NodeMap key ordering (-0.0 vs 0.0) is not under contract'),
+ 'C01-2': (False, 'C01', '', 'quick', 'NodeKey::cmp was put under a Verus contract afterwards (key order = lexicographic order of the coordinate values, Equal exactly for equal values); the seeded body uses total_cmp / then_with, which the unit does not declare, so it ends with a front-end error -> UNDECIDED (exit 2), not a VIOLATION'),
  'C01-3': (True, 'C02', 'Verus obligation C02.V.polygon_position (postcondition `is_inside` may only be set) -- reported by the C02 check; K twin c02_k_polygon_with_hole_pos added afterwards', 'quick', 'the C01 check itself does not cover it'),
  'C03-1': (True, 'C03', 'c03_k_hard_triple_7, c03_k_hard_triple_12 (deceptive literal triples through the real robust kernel)', 'quick', 'missed by the first run (lattice harness timed out -> UNDECIDED); literal ill-conditioned triples added afterwards'),
  'C03-2': (True, 'C03', 'c03_k_hard_triple_* (ring winding order of the literal triples)', 'quick', 'missed by the first run; literal triples added afterwards'),
